@@ -17,6 +17,8 @@ import (
 //                 by the harness's own clock readings; judged under interval arithmetic.
 //   kind "burst": a fresh client connected to the in-memory server sends a burst of lines;
 //                 the server end timestamps every line it receives (registration included).
+//   kind "hold":  a connected client (Flood=false) whose flood counters are set so that a line is
+//                 held; the effect of two WHOLE write() calls on counters and wire is observed.
 // Every choice comes from the one PRNG; clock readings are measurements, not choices.
 
 var c10conn *client.Conn
@@ -166,6 +168,22 @@ func c10BurstCase(r *Rand, flood bool, quick bool) Fields {
 	return F(xs...)
 }
 
+// hold case: style 0 = first line held (and so must the second be), 1 = first passes, second
+// held, 2 = neither held (instant)
+func c10HoldCase(r *Rand, style int) Fields {
+	c1, c2 := int64(r.Range(0, 20)), int64(r.Range(0, 20))
+	var bad int64
+	switch style {
+	case 0:
+		bad = 9500*1000000 + c10U(r, 490*1000000)
+	case 1:
+		bad = 7000*1000000 + c10U(r, 800*1000000)
+	default:
+		bad = c10U(r, 5*c10Sec)
+	}
+	return F("hold", c1, bad, c2)
+}
+
 type c10Future struct {
 	done chan struct{}
 	obs  Fields
@@ -177,7 +195,24 @@ func c10Gen(r *Rand, tier string, scale int, emit func(Fields)) {
 	if scale == 0 {
 		scale = 3000
 	}
-	var bursts []Fields
+	var bursts, holds []Fields
+	nh := 2
+	if tier == "thorough" {
+		nh = 8
+	}
+	for k := 0; k < nh; k++ {
+		holds = append(holds, c10HoldCase(r, k%2))
+	}
+	holds = append(holds, c10HoldCase(r, 2), c10HoldCase(r, 2))
+	// holds sleep in real time (2 s per held line): run them concurrently, each on its own client
+	for _, h := range holds {
+		fut := &c10Future{done: make(chan struct{})}
+		c10memo.Store(h.String(), fut)
+		go func(h Fields, fut *c10Future) {
+			fut.obs = c10RunHold(h)
+			close(fut.done)
+		}(h, fut)
+	}
 	if tier == "thorough" {
 		for k := 0; k < 12; k++ {
 			bursts = append(bursts, c10BurstCase(r, false, false))
@@ -205,6 +240,9 @@ func c10Gen(r *Rand, tier string, scale int, emit func(Fields)) {
 	for _, b := range bursts {
 		emit(b)
 	}
+	for _, h := range holds {
+		emit(h)
+	}
 }
 
 func c10Exec(in Fields) Fields {
@@ -222,6 +260,13 @@ func c10Exec(in Fields) Fields {
 			return fut.obs
 		}
 		return c10RunBurst(in)
+	case "hold":
+		if f, ok := c10memo.LoadAndDelete(in.String()); ok {
+			fut := f.(*c10Future)
+			<-fut.done
+			return fut.obs
+		}
+		return c10RunHold(in)
 	}
 	return F("bad")
 }
@@ -231,6 +276,111 @@ var c10seq int64
 type c10rec struct {
 	n int
 	t int64
+}
+
+// c10Session: a client connected to the in-memory server whose server end stamps every line
+type c10Session struct {
+	c       *client.Conn
+	srv     net.Conn
+	created time.Time
+	mu      sync.Mutex
+	recs    []c10rec
+}
+
+func (s *c10Session) count() int { s.mu.Lock(); defer s.mu.Unlock(); return len(s.recs) }
+func (s *c10Session) waitFor(n int, d time.Duration) bool {
+	dl := time.Now().Add(d)
+	for s.count() < n {
+		if !time.Now().Before(dl) {
+			return false
+		}
+		time.Sleep(200 * time.Microsecond)
+	}
+	return true
+}
+func (s *c10Session) rec(i int) c10rec { s.mu.Lock(); defer s.mu.Unlock(); return s.recs[i] }
+func (s *c10Session) close() {
+	s.srv.Close()
+	done := make(chan struct{})
+	go func() { s.c.Close(); close(done) }()
+	select {
+	case <-done:
+	case <-time.After(5 * time.Second):
+	}
+}
+
+func c10NewSession(flood bool) *c10Session {
+	ms := NewMemServer(fmt.Sprintf("c10-%d", atomic.AddInt64(&c10seq, 1)))
+	cfg := client.NewConfig("vbot", "vident", "v name")
+	cfg.Server = "irc.example"
+	cfg.Proxy = ms.URL()
+	cfg.Flood = flood
+	cfg.PingFreq = 0
+	s := &c10Session{created: time.Now()}
+	s.c = client.Client(cfg)
+	errc := make(chan error, 1)
+	go func() { errc <- s.c.Connect() }()
+	select {
+	case s.srv = <-ms.Conns:
+	case <-time.After(10 * time.Second):
+		return nil
+	}
+	go func() {
+		buf := make([]byte, 65536)
+		var pend []byte
+		for {
+			n, err := s.srv.Read(buf)
+			t := int64(time.Since(s.created))
+			pend = append(pend, buf[:n]...)
+			s.mu.Lock()
+			for {
+				k := bytes.Index(pend, []byte("\r\n"))
+				if k < 0 {
+					break
+				}
+				s.recs = append(s.recs, c10rec{k, t})
+				pend = pend[k+2:]
+			}
+			s.mu.Unlock()
+			if err != nil {
+				return
+			}
+		}
+	}()
+	select {
+	case <-errc:
+	case <-time.After(10 * time.Second):
+	}
+	s.waitFor(2, 8*time.Second) // NICK, USER
+	return s
+}
+
+// c10RunHold: see Entry/EntryC10.v kind "hold".  The send goroutine is idle (blocked on
+// conn.out) whenever the counters are set or read: both registration lines have arrived
+// before the set, and each read happens after the arrival of the line just written, when
+// write() has nothing left to do but log.
+func c10RunHold(in Fields) Fields {
+	c1, bad, c2 := in.I(1), in.I(2), in.I(3)
+	s := c10NewSession(false)
+	if s == nil || s.count() != 2 {
+		return F("noconn")
+	}
+	defer s.close()
+	t0 := time.Now()
+	s.c.VerifSetFloodState(time.Duration(bad), t0)
+	off := int64(t0.Sub(s.created))
+	s.c.Raw(strings.Repeat("x", c1))
+	if !s.waitFor(3, 12*time.Second) {
+		return F("line1-missing")
+	}
+	b1, l1 := s.c.VerifFloodState()
+	r1 := int64(time.Since(t0))
+	s.c.Raw(strings.Repeat("y", c2))
+	if !s.waitFor(4, 12*time.Second) {
+		return F("line2-missing", int64(b1), int64(l1.Sub(t0)))
+	}
+	b2, l2 := s.c.VerifFloodState()
+	return F(int64(l1.Sub(t0)), int64(b1), s.rec(2).t-off, r1, int64(b2), int64(l2.Sub(t0)), s.rec(3).t-off)
 }
 
 func c10RunBurst(in Fields) Fields {
@@ -327,6 +477,16 @@ func c10RunBurst(in Fields) Fields {
 }
 
 func c10Class(in Fields) string {
+	if in.S(0) == "hold" {
+		p := int64(in.I(2)) + c10Linetime(int64(in.I(1)))
+		switch {
+		case p > c10Threshold:
+			return "hold:first-and-second-held"
+		case p+c10Linetime(int64(in.I(3))) > c10Threshold:
+			return "hold:second-held"
+		}
+		return "hold:none-held"
+	}
 	if in.S(0) == "burst" {
 		if in.S(1) == "t" {
 			return "burst:flood-on"
